@@ -69,21 +69,22 @@ func c14Exec(which int, cs hx.Sx) hx.Sx {
 			fns = append(fns, fn)
 		}
 		var rows []hx.Sx
+		// ONE Root for the whole sequence, re-decoded for every event: this is what the pipeline's pooled events do, so the
+		// strings a checker got from the previous event are overwritten by the next one (nothing may be remembered by alias)
+		root := insaneJSON.Spawn()
+		defer insaneJSON.Release(root)
 		for _, ev := range hx.Items(it[2]) {
-			root := decode(ev)
-			if root == nil {
+			if err := root.DecodeString(hx.JSONText(ev)); err != nil {
 				return obsBadEvt
 			}
 			var row []hx.Sx
 			for _, fn := range fns { // every checker in turn on the SAME decoded root, as a pipeline's actions do
 				var res bool
 				if p := hx.Catch(func() { res = fn(root) }); p != "" {
-					insaneJSON.Release(root)
 					return hx.L(hx.I(3), hx.S(p))
 				}
 				row = append(row, hx.Bool(res))
 			}
-			insaneJSON.Release(root)
 			rows = append(rows, hx.L(row...))
 		}
 		return hx.L(rows...)
